@@ -398,6 +398,30 @@ def configs(tier: str, seed: int, classes=None, extra_stop=True):
             out.append((cn, cfg))
         if cn in FLOAT:
             out.append((cn, dict(base, objective="sphere", iters=3, seed=seed * 100 + 60, init_population="outside", keep_history=True)))
+        # operator / strategy choices other than the defaults
+        o0 = "onemax" if cn not in FLOAT else "sphere"
+        if cn == "GeneticAlgorithm":
+            picks = [("proportional", "one_point", "strong"), ("rank", "two_point", "custom_rate"), ("tournament_k", "uniform_tour_3", "average"),
+                     ("tournament_3", "uniform_prop_7", "weak"), ("rank", "empty", "strong"), ("proportional", "uniform_rank_2", "average")]
+            for j, (sl, cx, mu) in enumerate(picks if tier == "thorough" else picks[(seed % 2)::2]):
+                out.append((cn, dict(base, objective=o0, selection=sl, crossover=cx, mutation=mu, tour_size=3, parents_num=3, mutation_rate=0.2,
+                                     elitism=(j % 2 == 0), minimization=(j % 2 == 1), seed=seed * 100 + 70 + j)))
+        if cn in ("DifferentialEvolution", "jDE"):
+            strs = ["best_1", "rand_1", "current_to_best_1", "rand_to_best1", "best_2", "rand_2"]
+            for j, st_ in enumerate(strs if tier == "thorough" else strs[(seed % 2)::2]):
+                out.append((cn, dict(base, objective=o0, mutation=st_, elitism=(j % 2 == 1), minimization=(j % 2 == 0), seed=seed * 100 + 80 + j)))
+        if cn == "GeneticProgramming":
+            picks = [("rank", "gp_standard", "gp_weak_grow"), ("tournament_k", "gp_one_point", "gp_strong_shrink"), ("proportional", "gp_uniform_prop_2", "gp_average_swap"),
+                     ("tournament_3", "gp_uniform_tour_3", "gp_custom_rate_point"), ("rank", "gp_uniform_rank_7", "gp_weak_point"), ("rank", "gp_empty", "gp_strong_grow")]
+            for j, (sl, cx, mu) in enumerate(picks if tier == "thorough" else picks[(seed % 2)::2]):
+                out.append((cn, dict(base, objective=o0, selection=sl, crossover=cx, mutation=mu, tour_size=3, parents_num=3, mutation_rate=0.3,
+                                     elitism=(j % 2 == 0), seed=seed * 100 + 90 + j)))
+        if cn in ("SelfCGA", "PDPGA"):
+            out.append((cn, dict(base, objective=o0, selections=("rank", "tournament_3"), crossovers=("empty", "two_point", "uniform_tour_3"), mutations=("weak", "custom_rate"),
+                                 mutation_rate=0.15, elitism=False, seed=seed * 100 + 95)))
+        if cn in ("SelfCGP", "PDPGP"):
+            out.append((cn, dict(base, objective=o0, selections=("rank", "tournament_3"), crossovers=("gp_empty", "gp_one_point", "gp_uniform_2"), mutations=("gp_weak_shrink", "gp_average_swap"),
+                                 elitism=False, seed=seed * 100 + 96)))
         if extra_stop:
             # stopping scenarios: target at the first / a middle generation / never; error sides; stagnation; iters = 1
             o = "onemax" if cn not in FLOAT else "sphere"
